@@ -58,18 +58,31 @@ def wiring(model):
             continue
         for c in n.calls():
             if isinstance(c.func, ast.Name) and c.func.id == helper.name:
-                reg = dotted(c.args[0]) if c.args else None
-                if not reg or not reg.startswith(selfn + '.'):
+                # the registry handed to the helper: `self.<registry>` under the selector, or a local that the selector binds to one
+                cands = []
+                a0 = c.args[0] if c.args else None
+                if a0 is not None and (dotted(a0) or '').startswith(selfn + '.'):
+                    cands.append((dotted(a0), n))
+                elif isinstance(a0, ast.Name):
+                    for m_ in g.nodes:
+                        if m_.kind == 'stmt' and isinstance(m_.ast, ast.Assign) and any(isinstance(t_, ast.Name) and t_.id == a0.id for t_ in m_.ast.targets):
+                            dv = dotted(m_.ast.value)
+                            if not dv or not dv.startswith(selfn + '.'):
+                                raise AnalysisError('subscribe: registry argument of the helper not recognised')
+                            cands.append((dv, m_))
+                if not cands:
                     raise AnalysisError('subscribe: registry argument of the helper not recognised')
-                kind = named if guarded_by_edge(g, n, t, 'true') else (other if guarded_by_edge(g, n, t, 'false') else None)
-                if kind is None:
-                    raise AnalysisError('subscribe: helper call not under the queue_type selector')
-                w.registry[kind] = reg.split('.', 1)[1]
+                for reg, gn in cands:
+                    kind = named if guarded_by_edge(g, gn, t, 'true') else (other if guarded_by_edge(g, gn, t, 'false') else None)
+                    if kind is None:
+                        raise AnalysisError('subscribe: helper call not under the queue_type selector')
+                    w.registry[kind] = reg.split('.', 1)[1]
                 w.sub_event_arg = c.args[1] if len(c.args) > 1 else None
     if set(w.registry) != {'fifo', 'lifo'}:
         raise AnalysisError('subscribe: registries per kind not identified (%s)' % w.registry)
     # default kind when queue_type is None
-    w.default_kind = None
+    # without an explicit default, None is simply "not the named kind": the other side of the selector
+    w.default_kind = other if (set(w.registry) == {'fifo', 'lifo'}) else None
     for n in walk_shallow(sub.node):
         if isinstance(n, ast.Assign) and any(isinstance(x, ast.Name) and x.id == qt for x in n.targets) and const_str(n.value):
             w.default_kind = const_str(n.value)
